@@ -55,10 +55,42 @@ static void sign_shifted(unsigned char sig[64], const unsigned char *m, size_t m
     crypto_core_ed25519_scalar_mul(ka, k, ar); crypto_core_ed25519_scalar_add(S, ka, r);
     memcpy(sig, Rb, 32); memcpy(sig + 32, S, 32);
 }
+/* Challenge scalars with a long run of one-bits (the carry of a signed-window recoding has to ripple through it).  A valid signature
+ * with such an h cannot be asked for, but it can be searched: with the key and the commitment R = r*B fixed, h = H(R || A || M) mod L
+ * costs one hash per candidate message; for the messages found, S = r + h*a makes (R, S) a valid signature, which the verifier must
+ * accept.  The search only picks inputs (8 threads, 2^22 candidates each by default); the verdict is the specification's. */
+#include <pthread.h>
+#define GRIND_MAX 40
+static struct { unsigned char pk[32], Rb[32], r[32], ar[32]; crypto_hash_sha512_state pre; int minrun; unsigned long per; unsigned char msg[GRIND_MAX][16]; int n; pthread_mutex_t mu; } G;
+static int longest_ones(const unsigned char k[32]) { int best = 0, cur = 0; for (int b = 0; b < 256; b++) { if ((k[b >> 3] >> (b & 7)) & 1) { if (++cur > best) best = cur; } else cur = 0; } return best; }
+static void *grind_thread(void *arg) {
+    unsigned long t = (unsigned long) (uintptr_t) arg; unsigned char msg[16] = "h-run:", hh[64], k[32];
+    for (unsigned long c = 0; c < G.per && G.n < GRIND_MAX; c++) { unsigned long long v = ((unsigned long long) t << 40) | c; memcpy(msg + 8, &v, 8);
+        crypto_hash_sha512_state st = G.pre; crypto_hash_sha512_update(&st, msg, 16); crypto_hash_sha512_final(&st, hh); crypto_core_ed25519_scalar_reduce(k, hh);
+        if (longest_ones(k) >= G.minrun) { pthread_mutex_lock(&G.mu); if (G.n < GRIND_MAX) memcpy(G.msg[G.n++], msg, 16); pthread_mutex_unlock(&G.mu); } }
+    return NULL;
+}
+static int cmp16(const void *a, const void *b) { return memcmp(a, b, 16); }
+static void rec_verify(const char *kind, const unsigned char *sig, const unsigned char *m, size_t mlen, const unsigned char *pk, int honest);
+static void grind_h(vrng *rg, int log2per) {
+    unsigned char seed[32], sk[64], hs[64], a[32], w[64] = { 0 }, rw[64]; pthread_t th[8];
+    vrng_bytes(rg, seed, 32); crypto_sign_seed_keypair(G.pk, sk, seed); crypto_hash_sha512(hs, seed, 32); memcpy(a, hs, 32); a[0] &= 248; a[31] &= 127; a[31] |= 64;
+    memcpy(w, a, 32); crypto_core_ed25519_scalar_reduce(G.ar, w); vrng_bytes(rg, rw, 64); crypto_core_ed25519_scalar_reduce(G.r, rw); crypto_scalarmult_ed25519_base_noclamp(G.Rb, G.r);
+    crypto_hash_sha512_init(&G.pre); crypto_hash_sha512_update(&G.pre, G.Rb, 32); crypto_hash_sha512_update(&G.pre, G.pk, 32);
+    G.minrun = 27; G.per = 1UL << log2per; G.n = 0; pthread_mutex_init(&G.mu, NULL);
+    for (int t = 0; t < 8; t++) pthread_create(&th[t], NULL, grind_thread, (void *) (uintptr_t) t);
+    for (int t = 0; t < 8; t++) pthread_join(th[t], NULL);
+    qsort(G.msg, (size_t) G.n, 16, cmp16);                      /* the same records whatever the thread timing */
+    for (int i = 0; i < G.n; i++) { unsigned char hh[64], k[32], ka[32], sig[64]; crypto_hash_sha512_state st = G.pre;
+        crypto_hash_sha512_update(&st, G.msg[i], 16); crypto_hash_sha512_final(&st, hh); crypto_core_ed25519_scalar_reduce(k, hh);
+        crypto_core_ed25519_scalar_mul(ka, k, G.ar); memcpy(sig, G.Rb, 32); crypto_core_ed25519_scalar_add(sig + 32, ka, G.r);
+        rec_verify("h_long_run_of_ones", sig, G.msg[i], 16, G.pk, 1); }
+}
 int main(int argc, char **argv) {
     if (argc < 4) return 3;
     vrng_seed(&R, strtoull(argv[1], NULL, 10), 6); int nh = atoi(argv[2]);
     v_open(argv[3]); if (sodium_init() < 0) return 3; v_install_crash_handlers();
+    if (argc > 4 && atoi(argv[4]) > 0) { vrng gr; vrng_seed(&gr, strtoull(argv[1], NULL, 10), 66); grind_h(&gr, atoi(argv[4])); }   /* own stream: the records below do not depend on it */
     unsigned char seed[32], pk[32], sk[64], sig[64], sig2[64], m[400], T[32];
     static const size_t mlens[] = { 0, 1, 2, 31, 32, 33, 63, 64, 65, 111, 112, 127, 128, 129, 200, 255, 256, 300 };
     for (int i = 0; i < nh; i++) {
